@@ -48,6 +48,7 @@ type World struct {
 	quantFacts    []quantFact
 	loopFreshOnly map[string]bool
 	loopPreserved map[string]bool
+	loopFreshAlloc map[string]bool
 	indexTerms    []Term
 	topEntry      *State
 	firedAsserts  map[*AssertSpec]bool
